@@ -182,7 +182,7 @@ func tokdumpMain() {
 func selfExec(mode string, args any, timeout time.Duration) ([]byte, int, error) {
 	ab, _ := json.Marshal(args)
 	cmd := exec.Command(os.Args[0])
-	cmd.Env = append(os.Environ(), "VERIF_CHILD="+mode, "VERIF_CHILD_ARGS="+string(ab), "VERIF_CHILD_OUT=", "VERIF_RACE_CHILD=1")
+	cmd.Env = childEnv(mode, string(ab))
 	var so, se bytes.Buffer
 	cmd.Stdout, cmd.Stderr = &so, &se
 	if err := cmd.Start(); err != nil {
@@ -205,6 +205,13 @@ func selfExec(mode string, args any, timeout time.Duration) ([]byte, int, error)
 		<-done
 		return so.Bytes(), -1, fmt.Errorf("%s: watchdog", mode)
 	}
+}
+
+// childEnv is the environment of a short-lived helper process.  A race-instrumented
+// binary sleeps one second at exit (GORACE atexit_sleep_ms) unless told otherwise.
+func childEnv(mode, args string) []string {
+	gorace := strings.TrimSpace(os.Getenv("GORACE") + " atexit_sleep_ms=0")
+	return append(os.Environ(), "VERIF_CHILD="+mode, "VERIF_CHILD_ARGS="+args, "VERIF_CHILD_OUT=", "VERIF_RACE_CHILD=1", "GORACE="+gorace)
 }
 
 func tail(s string, n int) string {
